@@ -24,10 +24,10 @@ impl ValidUntil {
     pub fn new(start_instant: ServerStartInstant, offset_seconds: u32) -> Option<Self> {
         start_instant
             .seconds_elapsed()
-            .map(|elapsed| Self(SecondsSinceServerStart(elapsed.0 + offset_seconds)))
+            .map(|elapsed| Self(SecondsSinceServerStart(elapsed.0.saturating_add(offset_seconds))))
     }
     pub fn new_with_now(now: SecondsSinceServerStart, offset_seconds: u32) -> Self {
-        Self(SecondsSinceServerStart(now.0 + offset_seconds))
+        Self(SecondsSinceServerStart(now.0.saturating_add(offset_seconds)))
     }
     pub fn valid(&self, now: SecondsSinceServerStart) -> bool {
         self.0 .0 > now.0
